@@ -23,7 +23,7 @@ RULE = (
     "Obligations apply iff the library's is_valid accepts. Non-trivial = accepted by is_valid AND (exact zero in a "
     "speed, a density and a queue, or an ideal origin, or an empty VSL set). Distinct = SHA-1 of the case."
 )
-BUDGET = {"quick": {"examples": 200, "shards": 4}, "thorough": {"fuzz_runs": 3000, "examples": 4000, "shards": 16}}
+BUDGET = {"quick": {"examples": 350, "shards": 4}, "thorough": {"fuzz_runs": 3000, "examples": 4000, "shards": 16}}
 EXPECTED_LABELS = ("accepted", "edited", "rejected", "origin:ideal", "vsl:empty", "zero:v", "zero:rho", "zero:w",
                    "numpy:empty", "numpy:rand", "numpy:randn", "numpy:const", "numpy:int", "engine:SX", "engine:MX",
                    "merge", "bifurcation", "interior-ramp", "self-loop", "delta", "phi")
